@@ -47,6 +47,38 @@ theorem sum_cell (sqrt : Rat → Rat) (a : Arr) (t : List Arr) (r : Arr) (i : Na
   refine ⟨c, h1, h2, fun hm => ?_⟩
   rw [h3 hm]; simp only [column, List.map_cons]; exact fold1_add _ _
 
+/-- a fold of additions followed by a division by the number of operands: the common core of `Mean` and `FuzzyUnion` -/
+theorem meanArr_cell (a : Arr) (t : List Arr) (i : Nat) (hi : ∀ x ∈ a :: t, i < x.cells.length) :
+    ∃ c, (((foldArr (Cell.bin (· + ·)) .float a t).mapCells (Cell.divSc ((a :: t).length : Nat))).cells[i]? = some c) ∧
+      c.mask = (column (a :: t) i).any (·.mask) ∧
+      (c.mask = false → c.val = ((column (a :: t) i).map (·.val)).sum / ((a :: t).length : Nat)) := by
+  have hc := column_spec (a :: t) i hi
+  simp only [column, List.map_cons] at hc ⊢
+  cases hc with
+  | cons ha ht =>
+    have hn : (((a :: t).length : Nat) : Rat) ≠ 0 := by
+      have : 0 < (a :: t).length := by simp
+      exact_mod_cast Nat.pos_iff_ne_zero.mp this
+    have hn' : ((((a :: t).length : Nat) : Rat) == 0) = false := by simpa using hn
+    refine ⟨Cell.divSc ((a :: t).length : Nat) (foldCells (· + ·) (a.cells.getD i default) (t.map fun x => x.cells.getD i default)), ?_, ?_, ?_⟩
+    · simp only [Arr.mapCells, List.getElem?_map, foldArr_column (· + ·) _ a t i _ _ ha ht, Option.map_some]
+    · simp only [Cell.divSc, hn', Bool.or_false, foldCells_mask]
+    · intro hm
+      simp only [Cell.divSc, hn', Bool.or_false, foldCells_mask] at hm
+      have hv := foldCells_val (· + ·) _ _ hm
+      simp only [Cell.divSc, hn', Bool.or_false, foldCells_mask, hm, Bool.false_eq_true, if_false, hv]
+      rw [List.map_cons, fold1_add]
+
+/-- **Mean**: each result cell is missing iff some input cell is, and otherwise holds the arithmetic mean of the input cells. -/
+theorem mean_cell (sqrt : Rat → Rat) (a : Arr) (t : List Arr) (r : Arr) (i : Nat)
+    (h : exec sqrt .mean (a :: t) = .ok r) (hi : ∀ x ∈ a :: t, i < x.cells.length) :
+    ∃ c, r.cells[i]? = some c ∧ c.mask = (column (a :: t) i).any (·.mask) ∧
+      (c.mask = false → c.val = ((column (a :: t) i).map (·.val)).sum / ((a :: t).length : Nat)) := by
+  simp only [exec] at h
+  obtain ⟨_, _, h⟩ := bind_ok h
+  injection h with h; subst h
+  exact meanArr_cell a t i hi
+
 /-- **Multiply**: product of the input cells. -/
 theorem multiply_cell (sqrt : Rat → Rat) (a : Arr) (t : List Arr) (r : Arr) (i : Nat)
     (h : exec sqrt .multiply (a :: t) = .ok r) (hi : ∀ x ∈ a :: t, i < x.cells.length) :
